@@ -6,6 +6,7 @@ import N2k.Lemmas.TPTime
 import N2k.Lemmas.TPLinkMain
 import N2k.Lemmas.TPLinkBam
 import N2k.Lemmas.TPLinkSched
+import N2k.Lemmas.TPLinkBamSched
 import N2k.Lemmas.TPPacing
 import N2k.Lemmas.TPSafeRx
 /-!
@@ -615,8 +616,8 @@ no-op up to its clock (`step_A_idle`, `step_B_idle` from `poll_idle`), and one l
 `[(B, dB), (A, dA)]`.
 
 Not covered: schedules that are NOT timely (A's timeout comes due: A aborts - the single-node statement is `C10_timeouts`, the
-two-node composition of the abort is not formalised), other traffic on the bus during the transfer, a lossy channel. The BAM
-composition (`C10_end_to_end_bam_partial`) is still stated for alternating polls only. -/
+two-node composition of the abort is not formalised), other traffic on the bus during the transfer, a lossy channel. BAM under
+any poll order: `C10_end_to_end_bam_any_order`. -/
 theorem C10_end_to_end_any_order (a b : Node) (ia ib : Nat) (da db : Dev) (m : Msg) (sch : List (Who × Nat))
     (hda : Lead a ia da) (hdb : Lead b ib db) (hqa : Quiet a.s ia) (hqb : Quiet b.s ib)
     (haIdle : (a.tp ia).pend.pgn = 0) (haSent : a.s.drv.sent = []) (haRx : a.rxq = [])
@@ -685,8 +686,8 @@ carry no CTS obligation - `FreeMessage` and the constructor reset it) and may ho
 `C10_end_to_end_partial`, but A polls more than `bamGap` ms (≥ 50; and less than 2^31 ms) after its previous poll: the pacing of
 `C10_bam_pacing` then lets exactly one data packet out per poll. After at most 33 rounds of ANY such schedule B's handler has
 been called exactly once with the PGN, A's address, destination 255, the length and exactly the payload; A's transfer is over;
-nothing is in flight, and B never sent a frame (`C10_receiver_bam`). Missing for the full statement: as in
-`C10_end_to_end_partial` (strictly alternating polls). -/
+nothing is in flight, and B never sent a frame (`C10_receiver_bam`). Restriction (hence `_partial`): strictly alternating
+polls, one data packet per poll of B; `C10_end_to_end_bam_any_order` below lifts it. -/
 theorem C10_end_to_end_bam_partial (a b : Node) (ia ib : Nat) (da db : Dev) (m : Msg) (ds : List (Nat × Nat))
     (hda : Lead a ia da) (hdb : Lead b ib db) (hqa : Quiet a.s ia) (hqb : Quiet b.s ib)
     (haIdle : (a.tp ia).pend.pgn = 0) (haSent : a.s.drv.sent = []) (haRx : a.rxq = [])
@@ -766,5 +767,114 @@ example : ∃ (a b : Node) (ia ib : Nat) (da db : Dev) (m : Msg) (ds : List (Nat
   intro sl hsl _
   simp [exNodeB, exNode] at hsl
   rw [hsl]
+
+
+/-- **End to end (BAM), any poll order.** Same two nodes and hypotheses as `C10_end_to_end_bam_partial`, but the schedule is
+an ARBITRARY list of polls `(who, delay)` (`step` / `run` as in `C10_end_to_end_any_order`). The listener does not pace the
+sender, so frames pile up: whatever A handed to its driver since B's last poll arrives together, B takes the first 20 frames
+of its queue per poll (the loop of `ParseMessages`) and leaves the others queued. The statement is a simulation: the schedule
+alone determines four counters (`cntRun`, one `cntStep` per poll) - `n` frames sent (announce + data packets; a poll of A sends
+the next packet iff packets are left and more than 50 ms (after the announce) resp. `bamGap` ms (after a packet) passed at A since
+it armed the timer, idle polls add up), `p` of them wired to B, `q` taken by B (a poll of B: `q + min 20 (n - q)`) - and
+`bamLegal` only excludes a poll of A at the very millisecond the timer runs out (the scheduler flavours differ there) or 2^31 ms
+late; nothing at all is demanded of B. Then after EVERY legal schedule: `SendMsg` succeeded; B has not handed a single frame to
+its driver; as long as B has not taken all `packets + 1` frames its handler has not been called; and once it has
+(`q = packets + 1`, i.e. A's timer fired at `packets` polls and B polled once or - more than 20 frames outstanding - twice
+afterwards: that many effective polls) the handler has been called exactly once with the PGN, A's address, destination 255,
+the length and exactly the payload, A's transfer is over and nothing is in flight. Every prefix of a schedule is a schedule, so
+this describes the whole run. Not covered: other traffic, a lossy channel, B's slot timing out (B's delays are unbounded here
+because no other session competes for the slot). -/
+theorem C10_end_to_end_bam_any_order (a b : Node) (ia ib : Nat) (da db : Dev) (m : Msg) (sch : List (Who × Nat))
+    (hda : Lead a ia da) (hdb : Lead b ib db) (hqa : Quiet a.s ia) (hqb : Quiet b.s ib)
+    (haIdle : (a.tp ia).pend.pgn = 0) (haSent : a.s.drv.sent = []) (haRx : a.rxq = [])
+    (hbIdle : (b.tp ib).hasPending = false) (hbSent : b.s.drv.sent = []) (hbRx : b.rxq = []) (hbOut : b.out = [])
+    (haInfo : InfoIdle a ia) (hbInfo : InfoIdle b ib)
+    (hbFree : ∃ sl ∈ b.slots, sl.free = true) (hbInv : ∀ sl ∈ b.slots, sl.free = true → sl.reqCTS = 0)
+    (hknown : (checkKnown m.pgn).1 = true ∨ ¬ b.onlyKnown = true)
+    (htp : m.tp = true) (h9 : 9 ≤ m.len) (h223 : m.len ≤ 223) (hdata : m.len ≤ m.data.length)
+    (hdst : m.dst = 255) (hlow : m.pgn &&& 0xff = 0) (hp0 : m.pgn ≠ 0) (hp24 : m.pgn < 2^24)
+    (hid : n2kToCanId m.prio m.pgn da.source m.dst ≠ 0)
+    (hgap : a.bamGap ≤ 100000) (hlegal : bamLegal (tpPacketCount m.len) a.bamGap sch ⟨1, 0, 0, 0⟩)
+    (h64 : a.s.now + total sch + 100100 < M64) :
+    (sendMsgTP a m (some ia)).2 = true ∧
+    (run sch ((sendMsgTP a m (some ia)).1, b)).2.s.drv.sent = [] ∧
+    ((cntRun (tpPacketCount m.len) a.bamGap sch ⟨1, 0, 0, 0⟩).q ≤ tpPacketCount m.len →
+      (run sch ((sendMsgTP a m (some ia)).1, b)).2.out = []) ∧
+    ((cntRun (tpPacketCount m.len) a.bamGap sch ⟨1, 0, 0, 0⟩).q = tpPacketCount m.len + 1 →
+      (run sch ((sendMsgTP a m (some ia)).1, b)).2.out =
+        [{ pgn := m.pgn, src := da.source, dst := 255, prio := 7, len := m.len, tp := true, data := m.data.take m.len }] ∧
+      ((run sch ((sendMsgTP a m (some ia)).1, b)).1.tp ia).pend.pgn = 0 ∧
+      ((run sch ((sendMsgTP a m (some ia)).1, b)).1.tp ia).hasPending = false ∧
+      (run sch ((sendMsgTP a m (some ia)).1, b)).1.s.drv.sent = [] ∧
+      (run sch ((sendMsgTP a m (some ia)).1, b)).1.rxq = [] ∧
+      (run sch ((sendMsgTP a m (some ia)).1, b)).2.rxq = []) := by
+  have hstart := sendMsgTP_start_bam a m da hqa hda.dev0 hlow hp0 hid htp h9 hdst haIdle
+  rw [haSent, haRx, List.nil_append] at hstart
+  rw [hstart]
+  refine ⟨rfl, ?_⟩
+  obtain ⟨j, a0, hj, ha0⟩ := start_slot_exists b.slots m.pgn da.source 255 hbFree
+  have hreq := found_slot_silent b.slots m.pgn da.source j a0 hbInv hj ha0
+  have hL : BamHyp a b ia ib da db (pendMsg m da) j (b.slots.map (freeSess da.source 255)) a0 :=
+    ⟨hda, hdb, hqa, hqb, hbIdle, haInfo, hbInfo, hdst, h9, h223, hdata, hp24, hp0, hknown, rfl, hj, ha0, hreq⟩
+  have hb : b = b.upd b.tp b.slots [] [] [] := by
+    have := (upd_self b).symm
+    rw [hbOut, hbSent, hbRx] at this; exact this
+  have hnp : 2 ≤ tpPacketCount m.len := by unfold tpPacketCount; omega
+  have hpair : (a.upd (txTp ia a (pendMsg m da) 0 a.s.now 50) a.slots a.out [cmFrame da.source 255 (announceBytes 32 (pendMsg m da))] [], b)
+      = confB a b ia da (pendMsg m da) j (b.slots.map (freeSess da.source 255)) a0 1 0 0 a.s.now a.s.now b.s.now 0 [] :=
+    congrArg (Prod.mk _) hb
+  rw [hpair]
+  obtain ⟨t0', tA', tB', mt', S2', hR⟩ := runB_sim hL hgap sch 1 0 0 a.s.now a.s.now b.s.now 0 [] (Nat.le_refl _)
+    (by show 1 ≤ tpPacketCount m.len + 1; omega) (Nat.le_refl _) (by omega) (Nat.le_refl _) (by rw [Nat.sub_self]; exact hlegal) h64
+  rw [Nat.sub_self] at hR
+  rw [show tpPacketCount (pendMsg m da).len = tpPacketCount m.len from rfl] at hR
+  obtain ⟨hqp, hpn, hn⟩ := cntRun_inv (tpPacketCount m.len) a.bamGap sch ⟨1, 0, 0, 0⟩ (Nat.le_refl _) (by show 0 ≤ 1; omega)
+    (by show 1 ≤ tpPacketCount m.len + 1; omega)
+  rw [hR]
+  generalize cntRun (tpPacketCount m.len) a.bamGap sch ⟨1, 0, 0, 0⟩ = c at hqp hpn hn ⊢
+  have hlenm : (pendMsg m da).len = m.len := rfl
+  refine ⟨rfl, ?_, ?_⟩
+  · intro hq
+    show bOut da (pendMsg m da) c.q = []
+    unfold bOut; rw [hlenm, if_pos hq]
+  · intro hq
+    have hp' : c.p = tpPacketCount m.len + 1 := by omega
+    have hn' : c.n = tpPacketCount m.len + 1 := by omega
+    refine ⟨?_, ?_, ?_, ?_, rfl, ?_⟩
+    · show bOut da (pendMsg m da) c.q = _
+      unfold bOut; rw [hlenm, if_neg (by omega)]; rfl
+    · show ((aTp a ia (pendMsg m da) c.n t0') ia).pend.pgn = 0
+      rw [hn', ← hlenm, aTp_done t0' (by rw [hlenm]; exact hnp)]; simp [doneTp]
+    · show ((aTp a ia (pendMsg m da) c.n t0') ia).hasPending = false
+      rw [hn', ← hlenm, aTp_done t0' (by rw [hlenm]; exact hnp)]; simp [doneTp]
+    · show bamFrames da (pendMsg m da) c.p (c.n - c.p) = []
+      rw [hp', hn', Nat.sub_self, bamFrames_zero]
+    · show bamFrames da (pendMsg m da) c.q (c.p - c.q) = []
+      rw [hp', hq, Nat.sub_self, bamFrames_zero]
+
+set_option maxRecDepth 8000 in
+/-- the hypotheses of `C10_end_to_end_bam_any_order` are satisfiable and the completion condition is reached by a schedule in
+which B sleeps through the whole transfer: 150 bytes = 22 packets, A polls 22 times every 60 ms (and three times without
+effect), only then B polls - 23 frames wait, it takes 20, and the other 3 with its second poll -/
+example : ∃ (a b : Node) (ia ib : Nat) (da db : Dev) (m : Msg) (sch : List (Who × Nat)), a.bamGap ≤ 100000 ∧
+    bamLegal (tpPacketCount m.len) a.bamGap sch ⟨1, 0, 0, 0⟩ ∧
+    cntRun (tpPacketCount m.len) a.bamGap (sch.take (sch.length - 1)) ⟨1, 0, 0, 0⟩ = ⟨23, 23, 20, 10⟩ ∧
+    (cntRun (tpPacketCount m.len) a.bamGap sch ⟨1, 0, 0, 0⟩).q = tpPacketCount m.len + 1 ∧
+    a.s.now + total sch + 100100 < M64 ∧ Lead a ia da ∧ Lead b ib db ∧ 0 < ia ∧ 0 < ib ∧ Quiet a.s ia ∧ Quiet b.s ib ∧
+    (a.tp ia).pend.pgn = 0 ∧ a.s.drv.sent = [] ∧ a.rxq = [] ∧ (b.tp ib).hasPending = false ∧ b.s.drv.sent = [] ∧ b.rxq = [] ∧
+    b.out = [] ∧ InfoIdle a ia ∧ InfoIdle b ib ∧ (∃ sl ∈ b.slots, sl.free = true) ∧ (∀ sl ∈ b.slots, sl.free = true → sl.reqCTS = 0) ∧
+    ((checkKnown m.pgn).1 = true ∨ ¬ b.onlyKnown = true) ∧
+    m.tp = true ∧ 9 ≤ m.len ∧ m.len ≤ 223 ∧ m.len ≤ m.data.length ∧ m.dst = 255 ∧ m.pgn &&& 0xff = 0 ∧ m.pgn ≠ 0 ∧
+    m.pgn < 2^24 ∧ n2kToCanId m.prio m.pgn da.source m.dst ≠ 0 := by
+  refine ⟨exNodeA, exNodeB, 1, 1, exDevA, exDevB,
+    { exMsg with dst := 255, len := 150, data := List.range 150 },
+    (.A, 20) :: (.A, 10) :: List.replicate 22 (.A, 60) ++ [(.A, 10), (.B, 7), (.B, 0)], by decide, ?_, by decide, by decide, by decide,
+    exLeadA, exLeadB, by decide, by decide, exQuietA, exQuietB, rfl, rfl,
+    rfl, rfl, rfl, rfl, rfl, ⟨rfl, rfl⟩, ⟨rfl, rfl⟩, ⟨{}, by simp [exNodeB, exNode], rfl⟩, ?_, by decide, by decide, by decide, by decide, by decide, by decide,
+    by decide, by decide, by decide, by decide⟩
+  · simp [bamLegal, cntStep, List.replicate, tpPacketCount, exNodeA, exNode, INT32_MAX]
+  · intro sl hsl _
+    simp [exNodeB, exNode] at hsl
+    rw [hsl]
 
 end N2k.C10
